@@ -20,13 +20,17 @@ func ConvertValueList(values []interface{}) ([]interface{}, error) {
 	return jsonValues, nil
 }
 
-// IsNullValue returns true if the value is nil or a nil pointer, i.e., a value that JSON can express only as null.
+// IsNullValue returns true if the value is nil, or a nil pointer, slice or map, i.e., a value that JSON can express only as null.
 func IsNullValue(t interface{}) bool {
 	if t == nil {
 		return true
 	}
 	rv := reflect.ValueOf(t)
-	return rv.Kind() == reflect.Ptr && rv.IsNil()
+	switch rv.Kind() {
+	case reflect.Ptr, reflect.Slice, reflect.Map:
+		return rv.IsNil()
+	}
+	return false
 }
 
 // ToInterfaceArray transforms an array of JSNValues to the array of interfaces
